@@ -96,6 +96,41 @@ func (h *H) Map(ctx context.Context, m map[string]int64) (map[string]int64, erro
 	h.gotM = m
 	return h.retM, h.err()
 }
+func kindName(v interface{}) string {
+	switch v.(type) {
+	case nil:
+		return "nil"
+	case float64:
+		return "float64"
+	case string:
+		return "string"
+	case bool:
+		return "bool"
+	case []interface{}:
+		return "slice"
+	case map[string]interface{}:
+		return "map"
+	}
+	return "other"
+}
+
+// Any reports what Go type the JSON round trip produced for a loosely typed parameter.
+func (h *H) Any(v interface{}) (string, error) {
+	h.ran += "Any;"
+	if f, ok := v.(float64); ok {
+		h.gotF = f
+	}
+	return kindName(v), h.err()
+}
+
+func (h *H) AnyMap(ctx context.Context, m map[string]interface{}) (string, error) {
+	h.ran += "AnyMap;"
+	if f, ok := m["n"].(float64); ok {
+		h.gotF = f
+	}
+	return kindName(m["n"]) + "," + kindName(m["s"]) + "," + kindName(m["l"]), h.err()
+}
+
 func (h *H) Float(f float64) (float64, error) { h.ran += "Float;"; h.gotF = f; return h.retF, h.err() }
 func (h *H) Raw(ctx context.Context, p jsonrpc.RawParams) (string, error) {
 	h.ran += "Raw;"
@@ -121,6 +156,8 @@ type C struct {
 	Bytes   func(b []byte) ([]byte, error)
 	Map     func(ctx context.Context, m map[string]int64) (map[string]int64, error)
 	Float   func(f float64) (float64, error)
+	Any     func(v interface{}) (string, error)
+	AnyMap  func(ctx context.Context, m map[string]interface{}) (string, error)
 	Raw     func(ctx context.Context, p jsonrpc.RawParams) (string, error)
 }
 
@@ -203,9 +240,20 @@ func setup(h *H) (*C, func()) {
 	switch verif.Choice("transport", verif.Bound("transports", 2)) {
 	case 0:
 		closer, err = jsonrpc.NewCustomClient("NS", []interface{}{&c}, hx.CustomDo(srv), f.cli)
-	default:
+	case 1:
 		closer, err = jsonrpc.NewMergeClient(context.Background(), "http://server/rpc", "NS", []interface{}{&c}, nil,
 			f.cli, jsonrpc.WithHTTPClient(hx.HTTPClient(srv)))
+	default:
+		url, stop := verif.ServeWS(srv)
+		var wsCloser jsonrpc.ClientCloser
+		wsCloser, err = jsonrpc.NewMergeClient(context.Background(), url, "NS", []interface{}{&c}, nil, f.cli)
+		closer = func() {
+			if wsCloser != nil {
+				wsCloser()
+			}
+			stop()
+			verif.Quiesce()
+		}
 	}
 	verif.Assert(err == nil, "client-created")
 	return &c, closer
@@ -217,7 +265,7 @@ func HarnessShapes() {
 	c, closer := setup(h)
 	defer closer()
 	ctx := context.Background()
-	shape := verif.Choice("shape", 13)
+	shape := verif.Choice("shape", 15)
 	switch shape {
 	case 0:
 		c.Void()
@@ -340,6 +388,44 @@ func HarnessShapes() {
 			verif.Assert(err != nil && v == "", "raw-zero-value-on-error")
 		} else {
 			verif.Assert(err == nil && v == h.retS, "raw-result")
+		}
+	case 13:
+		n := verif.Int("n")
+		verif.Assume(n >= -(1<<53) && n <= 1<<53)
+		var arg interface{}
+		want := ""
+		switch verif.Choice("anykind", 5) {
+		case 0:
+			arg, want = n, "float64"
+		case 1:
+			arg, want = verif.String("s", 2), "string"
+		case 2:
+			arg, want = verif.Bool("b"), "bool"
+		case 3:
+			arg, want = nil, "nil"
+		case 4:
+			arg, want = []int64{n}, "slice"
+		}
+		v, err := c.Any(arg)
+		verif.Assert(h.ran == "Any;", "any-ran")
+		if !h.fail {
+			verif.Assert(err == nil && v == want, "loosely-typed-param-gets-the-json-round-trip-type")
+			if want == "float64" {
+				verif.Assert(h.gotF == float64(n), "loosely-typed-number-value")
+			}
+		} else {
+			verif.Assert(err != nil && v == "", "any-zero-value-on-error")
+		}
+	case 14:
+		n := verif.Int("n")
+		verif.Assume(n >= -(1<<53) && n <= 1<<53)
+		v, err := c.AnyMap(ctx, map[string]interface{}{"n": n, "s": "x", "l": []interface{}{1, "y"}})
+		verif.Assert(h.ran == "AnyMap;", "anymap-ran")
+		if !h.fail {
+			verif.Assert(err == nil && v == "float64,string,slice", "loosely-typed-map-gets-the-json-round-trip-types")
+			verif.Assert(h.gotF == float64(n), "loosely-typed-map-number-value")
+		} else {
+			verif.Assert(err != nil && v == "", "anymap-zero-value-on-error")
 		}
 	}
 	verif.Reach("shape-done")
